@@ -119,6 +119,10 @@ type Stage struct {
 	Volatile string
 	// Fn names the stage function in the library (defaults to Name).
 	Fn string
+	// Resources: written into the using (...) block when non-zero.
+	Threads float64
+	MemGB   float64
+	VMemGB  float64
 }
 
 type ExpK int
@@ -403,8 +407,21 @@ func (p *Program) MRO() string {
 			writeParams(&b, "out", s.ChunkOuts)
 		}
 		b.WriteString(")")
-		if s.Volatile != "" {
-			b.WriteString(" using (\n    volatile = " + s.Volatile + ",\n)")
+		if s.Volatile != "" || s.Threads != 0 || s.MemGB != 0 || s.VMemGB != 0 {
+			b.WriteString(" using (\n")
+			if s.MemGB != 0 {
+				fmt.Fprintf(&b, "    mem_gb = %v,\n", s.MemGB)
+			}
+			if s.VMemGB != 0 {
+				fmt.Fprintf(&b, "    vmem_gb = %v,\n", s.VMemGB)
+			}
+			if s.Threads != 0 {
+				fmt.Fprintf(&b, "    threads = %v,\n", s.Threads)
+			}
+			if s.Volatile != "" {
+				b.WriteString("    volatile = " + s.Volatile + ",\n")
+			}
+			b.WriteString(")")
 		}
 		if len(s.Retain) > 0 {
 			b.WriteString(" retain (\n")
